@@ -20,7 +20,7 @@ import re
 from ..core import AnalysisError, const_value, norm, walk_own, walk_stmts, names_in
 from ..paths import enum_paths, canon_test
 from .. import ordtab, relang, tmpl
-from .common import key_of
+from .common import key_of, gaf_schema
 
 META = {
     "explanation": "Static decision of gaftools stat's counting discipline: the parser's primary flag and stat's secondary test are evaluated on the "
@@ -46,6 +46,8 @@ def check(ctx):
     ctx.run(r19_5, st)
     ctx.run(r19_6, st)
     ctx.run(r19_7, st)
+    ctx.run(r19_8, st)
+    ctx.run(r19_9, st)
     ctx.not_decided.append("floating-point rounding of the two averages (summation order can change the last digits before round())")
     # mechanisms this property rests on (see shared.py): a change there is reported here as well
     from . import shared as _sh
@@ -791,3 +793,59 @@ def r19_7(ctx, m):
             if not any(e.kind == "loop" and e.node is rl for e in p.events):
                 bad = p
         ctx.check(bad is None, "R19.7", f.where(rl), "with --cigar every primary record reaches the run-counting loop (no shortcut that skips the counts for some CIGARs)", key_of(f, "cigar-loop-reached"), **({"path": bad.show()} if bad else {}))
+
+
+
+def r19_8(ctx, m):
+    """Every counter that is summed over the records starts at zero: its only binding outside the loop is the literal 0
+    (0.0); and the averages that are summed after the loop start at zero as well."""
+    f = m.f
+    accs = accumulators(m)
+    n = 0
+    for name in sorted(a for a in accs if a.isidentifier()):
+        inits = [st for st in walk_own(f.node) if isinstance(st, ast.Assign) and any(norm(t) == name for t in st.targets) and not any(x is st for x in ast.walk(m.loop))]
+        vals = [const_value(st.value, "?") for st in inits]
+        if not inits or not any(isinstance(s_, ast.AugAssign) and norm(s_.target) == name for s_ in walk_stmts(m.loop.body)):
+            continue
+        if not all(isinstance(v, (int, float)) and not isinstance(v, bool) or v == "?" for v in vals):
+            continue  # not a numeric counter (a table)
+        if any(v == "?" for v in vals):
+            continue
+        n += 1
+        ok = all(v == 0 for v in vals)
+        ctx.check(ok, "R19.8", f.where(inits[0]), f"counter `{name}` starts at zero", key_of(f, f"counter-init:{name}:{vals}"), initial=vals)
+    ctx.require_count("R19.8", n, 4, f.where(), "numeric counters initialised before the record loop")
+
+
+def r19_9(ctx, m):
+    """The two per-record ratios are what the report says they are: map ratio = aligned part of the read / read length,
+    sequence identity = matches / alignment block length (both as true divisions)."""
+    f = m.f
+    rec = m.rec
+    schema, extras = gaf_schema(ctx.repo, "R19.9")
+    P = {c: a for a, c in schema.items()}
+
+    def strip_float(e):
+        while isinstance(e, ast.Call) and isinstance(e.func, ast.Name) and e.func.id == "float" and len(e.args) == 1:
+            e = e.args[0]
+        return e
+
+    want = {
+        "map": (f"{rec}.{P[3]} - {rec}.{P[2]}", f"{rec}.{P[1]}"),
+        "identity": (f"{rec}.{P[9]}", f"{rec}.{P[10]}"),
+    }
+    seen = {}
+    for st in walk_stmts(m.loop.body):
+        if isinstance(st, ast.Assign) and isinstance(st.targets[0], ast.Name) and isinstance(st.value, ast.BinOp) and isinstance(st.value.op, (ast.Div, ast.Mult, ast.FloorDiv)):
+            num, den = norm(strip_float(st.value.left)).strip("()"), norm(strip_float(st.value.right)).strip("()")
+            for k, (wn, wd) in want.items():
+                if {P[9], P[10]} & set(names_attr(st.value)) and k == "identity" or {P[1], P[2], P[3]} & set(names_attr(st.value)) and k == "map":
+                    seen[k] = st
+                    ok = isinstance(st.value.op, ast.Div) and num == wn and den == wd
+                    ctx.check(ok, "R19.9", f.where(st), f"{'map ratio' if k == 'map' else 'sequence identity'} of a record is ({wn}) / {wd}", key_of(f, f"ratio:{k}:{norm(st.value)[:60]}"), formula=norm(st.value))
+    if len(seen) < 2:
+        raise AnalysisError("R19.9", f.where(m.loop), f"cannot find the two per-record ratios (found {sorted(seen)})")
+
+
+def names_attr(e):
+    return [x.attr for x in ast.walk(e) if isinstance(x, ast.Attribute)]
